@@ -11,12 +11,12 @@
    bits.script.scriptpubkey (C08) - the Section variable [scriptpubkey] (the extraction driver instantiates it with
    the table the harness computes with its INDEPENDENT address decoder, so a wrong script is a disagreement).
 
-   The known signing defects are modelled AS THEY ARE (Props/C16.v proves them as ..._refuted):
-     * segwit kinds: witness_message(txins, utxo["vout"], ...) - the OUTPUT index of the spent utxo is used as the INPUT
-       index; version / locktime are not passed (defaults 1 / 0); messages are built for ALL unspents;
-     * legacy kinds: one message (the whole transaction, every scriptSig filled, flag not applied) signed once and
-       the one signature list reused for every input;
-     * p2wsh scriptCode: one length byte.
+   The code modelled is the REPAIRED send_tx (fix: commits 76b1d46 7028915 b2620c0 68ff814 fc63e23 5a36e22 956c05d):
+     * segwit kinds: one BIP143 message per SELECTED input, with the input's position as index and the transaction's
+       version / locktime; the p2wsh scriptCode carries a CompactSize length;
+     * legacy kinds: tx.legacy_sig_message per input (other scriptSigs blanked, flag semantics applied; the SIGHASH_SINGLE
+       input-without-output case is refused with ValueError), one scriptSig per input;
+     * the change of a raw-scriptPubKey sender goes to that script.
    Definitions only. *)
 From Coq Require Import ZArith List Bool.
 From Coq Require Import Floats.SpecFloat.
@@ -167,7 +167,7 @@ Section Send.
       inner <- Bits.Model.Script.script [Bits.Model.Script.s_DUP; Bits.Model.Script.s_HASH160; hex_of_bytes (hash160 pk); Bits.Model.Script.s_EQUALVERIFY; Bits.Model.Script.s_CHECKSIG] ;;
       Bits.Model.Script.script [hex_of_bytes inner]
     else
-      l <- to_be_chk 1 (lenZ (ki_redeem k)) ;;           (* len(redeem_script).to_bytes(1, "big") *)
+      l <- Bits.Model.CompactSize.compact_size_uint (lenZ (ki_redeem k)) ;;    (* bits.compact_size_uint(len(redeem_script)) *)
       Ok (l ++ ki_redeem k).
 
   (* msgs = [witness_message(txins, txin_index, round(utxo["amount"] * 1e8), scriptcode, txouts, version=version,
